@@ -24,6 +24,18 @@ pub fn exec(c: &[i64]) -> Vec<i64> {
                     let _ = hcu.trigger(&mut ctx, &mut tx, &Object::Motion(m));
                     i += 1 + used;
                 }
+                4 => {
+                    // the command task's trigger while another task is inside the shared context (holds its
+                    // lock for 30 ms): the store must wait for the lock, not be skipped
+                    let Some((m, used)) = dec_motion(&evs[i + 1..]) else { return vec![-2] };
+                    let other = ctx.clone();
+                    let (tx_ready, rx_ready) = std::sync::mpsc::channel::<()>();
+                    let h = std::thread::spawn(move || { let g = other.inner(); let _ = tx_ready.send(()); std::thread::sleep(std::time::Duration::from_millis(30)); drop(g); });
+                    let _ = rx_ready.recv();
+                    let _ = hcu.trigger(&mut ctx, &mut tx, &Object::Motion(m));
+                    let _ = h.join();
+                    i += 1 + used;
+                }
                 2 => { let _ = hcu.trigger(&mut ctx, &mut tx, &other_object(evs[i + 1])); i += 2; }
                 3 => {
                     if i + 10 > evs.len() { return vec![-2]; }
@@ -114,6 +126,20 @@ pub fn gen(o: &Opts, sink: &mut dyn FnMut(Vec<i64>, String)) {
             let l = match rng.below(10) { 0 | 1 | 2 => 0, 3 | 4 => 1 + rng.below(5), _ => rng.below(14) };
             letter(l, da, sa, &mut rng, &mut c);
         }
+        sink(c, String::new());
+    }
+    // commands accepted under lock contention (another task inside the shared context), then cycles
+    for j in 0..(if o.tier_thorough { 200u64 } else { 24 }) {
+        k += 1;
+        if !mine(o, k) { continue; }
+        let mut rng = Rng::new(o.seed, 8_000_000 + j);
+        let (da, sa) = cfgs[(j % 3) as usize];
+        let mut c = vec![da, sa];
+        let mut m = Vec::new();
+        letter(4 + rng.below(2), da, sa, &mut rng, &mut m); c.extend(&m); c.push(0);        // a drive command, a cycle
+        m.clear(); letter(1 + rng.below(5), da, sa, &mut rng, &mut m); c.push(4); c.extend(&m[1..]);   // contended accept
+        c.push(0); c.push(0);
+        if rng.chance(1, 2) { c.push(4); c.push(0); c.push(0); }                                  // contended stop-all
         sink(c, String::new());
     }
     // the same property through the real NetworkAuthority on the emulated bus (command, tick and
